@@ -1533,8 +1533,9 @@ impl TypeLayout {
     }
 
     pub fn can_be_used_as_list_index(&self) -> bool {
+        // a captured `int` is an `int` behind a callback wrapper
         matches!(
-            self,
+            self.disregard_distractors(false),
             TypeLayout::Native(NativeType::Int | NativeType::BigInt)
         )
     }
